@@ -28,7 +28,15 @@ package main
 //	                             observation  seen=<pairs reported>
 //	hist <init> <call>…          a RECORDED call/return history of sync2.Map / ConcurrentSets / GenericConcurrentSets
 //	                             under 2-4 goroutines; observation lin | nonlin (own checker; the Lean driver
-//	                             re-decides the same line with the model's checker)
+//	                             re-decides the same line with the model's checker). Set histories also record Length()
+//	                             (`N`), and end with one QUIESCENT Length() taken after every goroutine has returned.
+//	setlen <obj> <nk> <trials> <queue>…
+//	                             forced concurrency on a set (obj cs = ConcurrentSets, gs = GenericConcurrentSets): up to
+//	                             <trials> fresh sets holding the keys 1..nk; one goroutine per queue (`x<k>` Remove k, `p<k>`
+//	                             Put k, joined by `.`), all released from a spinning barrier, typically several goroutines
+//	                             removing the SAME present key; no key is both removed and put, so every schedule must end in
+//	                             the same set. After all have returned: Length(), len(ToArray()), Exists of the keys 1..8.
+//	                             observation  len=<n> arr=<n> has=<k.k…|->  (of the first deviating trial, else of the last)
 //
 // In `conc`, the scan/close cases run in a CHILD process (re-exec, hidden sub `concchild`) with
 // GORACE="halt_on_error=1 exitcode=66": a race report whose stack mentions github.com/go-kid/ioc becomes the
@@ -39,8 +47,12 @@ package main
 //   fstart: no race report, no hang/panic of the start                      (race, fstart-hang, fstart-panic)
 //   scan:  Run fails iff some scanner failed, and its error names exactly the failing components (scan-errs-lost), no race
 //   lofn:  not both callers loaded=false                                    (lofn-two-winners)
-//   range/hist: linearizable w.r.t. the sequential map/set; a history that is only explained when Range results
-//          are ignored has the signature range-not-atomic (KNOWN FINDING KF-C20-1), any other not-linearizable.
+//   range/hist: linearizable w.r.t. the sequential map/set (Length = number of keys present); a history that is only
+//          explained when the results of Range — and of Length calls that OVERLAP a Put/Remove: Length is
+//          len(ToArray()), one Range — are ignored has the signature range-not-atomic (KNOWN FINDING KF-C20-1), any
+//          other not-linearizable. A quiescent Length is never ignored.
+//   setlen: after the goroutines have returned, Length() = len(ToArray()) = the number of keys a sequential execution of
+//          the same calls leaves, and Exists holds for exactly those keys            (set-length-drift, set-final-state)
 
 import (
 	"bytes"
@@ -604,6 +616,8 @@ func runLine(scn string, closeDelayMs int) hx.Case {
 		return runRange(int(num(1)), int(num(2)))
 	case len(f) >= 2 && f[0] == "hist":
 		return recheckHist(scn)
+	case len(f) >= 5 && f[0] == "setlen":
+		return runSetLenLine(f)
 	}
 	return hx.Case{Scn: scn, Obs: "bad-line", Oracle: "FAIL bad-line"}
 }
@@ -828,18 +842,251 @@ func sameSet(a, b []int) bool {
 	return true
 }
 
+// ---------------------------------------------------------------- setlen: quiescent reads after concurrent removals
+
+type setOp struct {
+	put bool
+	k   int
+}
+
+const setLenMaxKey = 8
+
+func parseSetQueues(toks []string) ([][]setOp, bool) {
+	var qs [][]setOp
+	for _, t := range toks {
+		var q []setOp
+		for _, o := range strings.Split(t, ".") {
+			if len(o) < 2 || (o[0] != 'x' && o[0] != 'p') {
+				return nil, false
+			}
+			k, err := strconv.Atoi(o[1:])
+			if err != nil || k < 1 || k > setLenMaxKey || strconv.Itoa(k) != o[1:] {
+				return nil, false
+			}
+			q = append(q, setOp{put: o[0] == 'p', k: k})
+		}
+		qs = append(qs, q)
+	}
+	return qs, len(qs) > 0
+}
+
+func setQueuesString(qs [][]setOp) string {
+	var ts []string
+	for _, q := range qs {
+		var os []string
+		for _, o := range q {
+			c := "x"
+			if o.put {
+				c = "p"
+			}
+			os = append(os, c+strconv.Itoa(o.k))
+		}
+		ts = append(ts, strings.Join(os, "."))
+	}
+	return strings.Join(ts, " ")
+}
+
+func runSetLenLine(f []string) hx.Case {
+	bad := hx.Case{Scn: strings.Join(f, " "), Obs: "bad-line", Oracle: "FAIL bad-line"}
+	nk, err1 := strconv.Atoi(f[2])
+	trials, err2 := strconv.Atoi(f[3])
+	qs, ok := parseSetQueues(f[4:])
+	if (f[1] != "cs" && f[1] != "gs") || err1 != nil || err2 != nil || nk < 0 || nk > setLenMaxKey || !ok {
+		return bad
+	}
+	removed, put := map[int]bool{}, map[int]bool{}
+	for _, q := range qs {
+		for _, o := range q {
+			if o.put {
+				put[o.k] = true
+			} else {
+				removed[o.k] = true
+			}
+		}
+	}
+	for k := range removed {
+		if put[k] { // the final set would depend on the schedule
+			return bad
+		}
+	}
+	return runSetLen(f[1], nk, trials, qs)
+}
+
+// runSetLen: see the header (`setlen`). The expectation is the harness' own sequential execution of the queues.
+func runSetLen(obj string, nk, trials int, qs [][]setOp) hx.Case {
+	if trials < 1 {
+		trials = 1
+	}
+	if trials > 200000 {
+		trials = 200000
+	}
+	c := hx.Case{Scn: fmt.Sprintf("setlen %s %d %d %s", obj, nk, trials, setQueuesString(qs))}
+	// what a sequential execution leaves (queue after queue; any other order gives the same: no key is both removed and put)
+	final := map[int]bool{}
+	for k := 1; k <= nk; k++ {
+		final[k] = true
+	}
+	sameKeyRemovers := map[int]int{}
+	for _, q := range qs {
+		seen := map[int]bool{}
+		for _, o := range q {
+			if o.put {
+				final[o.k] = true
+			} else {
+				delete(final, o.k)
+				if o.k <= nk && !seen[o.k] {
+					seen[o.k] = true
+					sameKeyRemovers[o.k]++
+				}
+			}
+		}
+	}
+	most := 0
+	for _, n := range sameKeyRemovers {
+		if n > most {
+			most = n
+		}
+	}
+	c.Tags = []string{"forced-setlen", "object=" + map[string]string{"cs": "ConcurrentSets", "gs": "GenericConcurrentSets"}[obj],
+		fmt.Sprintf("goroutines=%s", bucket(len(qs))), fmt.Sprintf("removers-of-one-present-key=%s", bucket(most))}
+	if most < 2 {
+		c.Tags = append(c.Tags, "trivial")
+	}
+	var wantHas []string
+	for k := 1; k <= setLenMaxKey; k++ {
+		if final[k] {
+			wantHas = append(wantHas, strconv.Itoa(k))
+		}
+	}
+	show := func(ln, arr int, has []string) string {
+		h := "-"
+		if len(has) > 0 {
+			h = strings.Join(has, ".")
+		}
+		return fmt.Sprintf("len=%d arr=%d has=%s", ln, arr, h)
+	}
+	want := show(len(final), len(final), wantHas)
+	G := int32(len(qs))
+	got, trial := "", 0
+	out := withWatchdog(30*time.Second, func() {
+		for trial = 0; trial < trials; trial++ {
+			var cs list.Set
+			var gs list.GenericSet[int]
+			if obj == "cs" {
+				cs = list.NewConcurrentSets()
+			} else {
+				gs = list.NewGenericConcurrentSets[int]()
+			}
+			for k := 1; k <= nk; k++ {
+				if obj == "cs" {
+					cs.Put(strconv.Itoa(k))
+				} else {
+					gs.Put(k)
+				}
+			}
+			var arrived int32
+			var wg sync.WaitGroup
+			wg.Add(len(qs))
+			for _, q := range qs {
+				go func(q []setOp) {
+					defer wg.Done()
+					// barrier: everybody spins until the last one has arrived, so the first calls start together
+					atomic.AddInt32(&arrived, 1)
+					for spins := 0; atomic.LoadInt32(&arrived) < G; spins++ {
+						if spins > 300 {
+							runtime.Gosched()
+						}
+					}
+					for _, o := range q {
+						switch {
+						case obj == "cs" && o.put:
+							cs.Put(strconv.Itoa(o.k))
+						case obj == "cs":
+							cs.Remove(strconv.Itoa(o.k))
+						case o.put:
+							gs.Put(o.k)
+						default:
+							gs.Remove(o.k)
+						}
+					}
+				}(q)
+			}
+			wg.Wait()
+			// quiescent: nobody else touches the set any more
+			var ln, arr int
+			var has []string
+			if obj == "cs" {
+				ln, arr = cs.Length(), len(cs.ToArray())
+			} else {
+				ln, arr = gs.Length(), len(gs.ToArray())
+			}
+			for k := 1; k <= setLenMaxKey; k++ {
+				if (obj == "cs" && cs.Exists(strconv.Itoa(k))) || (obj == "gs" && gs.Exists(k)) {
+					has = append(has, strconv.Itoa(k))
+				}
+			}
+			got = show(ln, arr, has)
+			if got != want {
+				return
+			}
+		}
+	})
+	if out != "" {
+		c.Obs, c.Oracle = out, "FAIL setlen-"+out+" the goroutines did not return"
+		return c
+	}
+	c.Obs = got
+	if got != want {
+		sig := "set-final-state"
+		if strings.Fields(got)[0] != strings.Fields(want)[0] {
+			sig = "set-length-drift"
+		}
+		c.Oracle = fmt.Sprintf("FAIL %s trial %d: after %d goroutines (%s) on a fresh set {1..%d} had all returned: %s; every sequential order of these calls leaves %s",
+			sig, trial, len(qs), setQueuesString(qs), nk, got, want)
+	}
+	return c
+}
+
+// genSetLen: mostly g goroutines that all Remove one present key; sometimes with further calls on other keys
+func genSetLen(r *hx.Rng, trials int) hx.Case {
+	obj := []string{"cs", "gs"}[r.Intn(2)]
+	nk := 1 + r.Intn(4)
+	g := []int{2, 3, 4, 8, 8, 12}[r.Intn(6)]
+	hot := 1 + r.Intn(nk)
+	qs := make([][]setOp, g)
+	for i := range qs {
+		qs[i] = []setOp{{k: hot}}
+	}
+	if r.P(1, 3) { // other keys: removals of a second present key, insertions of fresh keys, a removal of an absent key
+		for i := range qs {
+			switch r.Intn(5) {
+			case 0:
+				if nk >= 2 {
+					qs[i] = append(qs[i], setOp{k: hot%nk + 1})
+				}
+			case 1:
+				qs[i] = append([]setOp{{put: true, k: nk + 1 + r.Intn(2)}}, qs[i]...)
+			case 2:
+				qs[i] = append(qs[i], setOp{k: setLenMaxKey})
+			}
+		}
+	}
+	return runSetLen(obj, nk, trials, qs)
+}
+
 // ---------------------------------------------------------------- recorded histories + linearizability checker
 
 type hcall struct {
-	kind     string // L S LS LF D R P E X
+	kind     string // L S LS LF D R P E X N
 	k, v     int
 	res      string // u | g/<v|->/<0|1> | s/k=v/k=v…
 	inv, ret int64
+	soft     bool // a read built on sync.Map.Range whose result may be ignored when classifying a failure (see histCase)
 }
 
 func (h hcall) token(keys string) string {
 	k, v := strconv.Itoa(h.k), strconv.Itoa(h.v)
-	if h.kind == "R" {
+	if h.kind == "R" || h.kind == "N" {
 		k, v = keys, "-"
 	}
 	return fmt.Sprintf("%s:%s:%s:%s:%d:%d", h.kind, k, v, h.res, h.inv, h.ret)
@@ -880,6 +1127,14 @@ func specApply(m map[int]int, c hcall, universe []int) string {
 	case "E":
 		_, ok := m[c.k]
 		return gotTok(0, false, ok)
+	case "N": // Length(): the number of keys present
+		n := 0
+		for _, k := range universe {
+			if _, ok := m[k]; ok {
+				n++
+			}
+		}
+		return gotTok(n, true, false)
 	case "R":
 		s := "s"
 		for _, k := range universe {
@@ -915,7 +1170,7 @@ func linearizable(init map[int]int, calls []hcall, universe []int, ignoreRange b
 				m2[k] = v
 			}
 			r := specApply(m2, c, universe)
-			if r != c.res && !(ignoreRange && c.kind == "R") {
+			if r != c.res && !(ignoreRange && c.soft) {
 				continue
 			}
 			rest := append(append([]hcall(nil), pending[:i]...), pending[i+1:]...)
@@ -947,6 +1202,20 @@ func histCase(init map[int]int, calls []hcall, universe []int, tags []string) hx
 		scn += strings.Join(ini, ",")
 	}
 	sort.SliceStable(calls, func(i, j int) bool { return calls[i].inv < calls[j].inv })
+	for i := range calls {
+		// Range is not atomic (KF-C20-1); Length() is len(ToArray()) = one Range, so a Length that OVERLAPS a mutation of
+		// the set shares that weakness. A Length that overlaps no mutation (a quiescent read) does not.
+		switch calls[i].kind {
+		case "R":
+			calls[i].soft = true
+		case "N":
+			for j, o := range calls {
+				if j != i && (o.kind == "P" || o.kind == "X") && !(o.ret < calls[i].inv || calls[i].ret < o.inv) {
+					calls[i].soft = true
+				}
+			}
+		}
+	}
 	for _, c := range calls {
 		scn += " " + c.token(keys)
 	}
@@ -957,7 +1226,7 @@ func histCase(init map[int]int, calls []hcall, universe []int, tags []string) hx
 	}
 	c.Obs = "nonlin"
 	if linearizable(init, calls, universe, true) {
-		c.Oracle = "FAIL range-not-atomic the recorded history is explained only when the results of Range are ignored"
+		c.Oracle = "FAIL range-not-atomic the recorded history is explained only when the results of Range (or of a Length overlapping a Put/Remove) are ignored"
 	} else {
 		c.Oracle = "FAIL not-linearizable no sequential order of the recorded calls explains their results"
 	}
@@ -986,7 +1255,7 @@ func recheckHist(scn string) hx.Case {
 			return hx.Case{Scn: scn, Obs: "bad-line", Oracle: "FAIL bad-line"}
 		}
 		c := hcall{kind: p[0], res: p[3]}
-		if c.kind == "R" {
+		if c.kind == "R" || c.kind == "N" {
 			universe = nil
 			for _, x := range strings.Split(p[1], ".") {
 				k, _ := strconv.Atoi(x)
@@ -1051,7 +1320,7 @@ func recordHistory(rng *hx.Rng) hx.Case {
 		for j := 0; j < nops && total < 8; j++ {
 			p := planned{k: universe[rng.Intn(nkeys)], v: (t+1)*100 + j, yield: rng.P(1, 2)}
 			if kind >= 2 {
-				p.kind = []string{"P", "E", "X", "E"}[rng.Intn(4)]
+				p.kind = []string{"P", "E", "X", "E", "X", "N", "P", "N"}[rng.Intn(8)]
 			} else {
 				p.kind = []string{"L", "S", "LS", "LF", "D", "R", "L", "LF"}[rng.Intn(8)]
 			}
@@ -1134,6 +1403,14 @@ func recordHistory(rng *hx.Rng) hx.Case {
 						gs.Remove(p.k)
 					}
 					c.res = "u"
+				case "N":
+					var n int
+					if kind == 2 {
+						n = cs.Length()
+					} else {
+						n = gs.Length()
+					}
+					c.res = gotTok(n, true, false)
 				}
 				c.ret = tick()
 				results[t] = append(results[t], c)
@@ -1145,6 +1422,16 @@ func recordHistory(rng *hx.Rng) hx.Case {
 	var calls []hcall
 	for t := range results {
 		calls = append(calls, results[t]...)
+	}
+	if kind >= 2 { // the final quiescent Length(): every goroutine has returned
+		c := hcall{kind: "N", inv: tick()}
+		if kind == 2 {
+			c.res = gotTok(cs.Length(), true, false)
+		} else {
+			c.res = gotTok(gs.Length(), true, false)
+		}
+		c.ret = tick()
+		calls = append(calls, c)
 	}
 	overlap := false
 	for i := range calls {
@@ -1161,9 +1448,23 @@ func recordHistory(rng *hx.Rng) hx.Case {
 	} else {
 		tags = append(tags, "no-overlap")
 	}
-	for _, k := range []string{"LF", "R"} {
+	for _, k := range []string{"LF", "R", "N"} {
 		if kinds[k] {
 			tags = append(tags, "has-"+k)
+		}
+	}
+	if kind >= 2 {
+		tags = append(tags, "final-quiescent-Length")
+		// two Removes of one key that was present at the start, overlapping in real time
+		for i := range calls {
+			for j := range calls {
+				if _, present := init[calls[i].k]; i < j && present && calls[i].kind == "X" && calls[j].kind == "X" && calls[i].k == calls[j].k &&
+					!(calls[i].ret < calls[j].inv || calls[j].ret < calls[i].inv) {
+					tags = append(tags, "overlapping-removes-of-one-key")
+					i = len(calls) - 1
+					break
+				}
+			}
 		}
 	}
 	return histCase(init, calls, universe, tags)
@@ -1179,6 +1480,11 @@ func concCorpus(w *hx.Writer) {
 	w.Put(runLofn("01011100"))
 	w.Put(runLofn("000011"))
 	w.Put(runLofn("111100"))
+	// eight goroutines Remove the same present key of {1,2,3}, then the set is read (both set types); mixed calls on other keys
+	w.Put(runSetLenLine(strings.Fields("setlen cs 3 500 x1 x1 x1 x1 x1 x1 x1 x1")))
+	w.Put(runSetLenLine(strings.Fields("setlen gs 3 500 x1 x1 x1 x1 x1 x1 x1 x1")))
+	w.Put(runSetLenLine(strings.Fields("setlen cs 2 150 x2.x1 p4.x2 x2 x2.x8")))
+	w.Put(runSetLenLine(strings.Fields("setlen gs 0 50 p1 p1.p2 x3")))
 	// all scanners of a start fail together; every closer fails
 	runInChild([]string{"scan 2 3 1", "scan 12 4095 2", "scan 40 31 3", "close 8 255 4", "close 0 0 5"}, w)
 	// the first start of a process: 32 components that all carry the same tag texts; every shape at once
@@ -1246,6 +1552,17 @@ func concGen(rng *hx.Rng, n int, tier string, w *hx.Writer) {
 			nk := 2 + r.Intn(3)
 			w.Put(runRange(nk, r.Intn(nk+1)))
 		}
+	}
+	// (c') forced concurrency on the sets: several goroutines Remove one present key, then Length() is read
+	setlens, trials := 6, 600
+	if tier == "thorough" {
+		setlens, trials = n/400, 1500
+		if setlens > 40 {
+			setlens = 40
+		}
+	}
+	for i := 0; i < setlens; i++ {
+		w.Put(genSetLen(rng.Fork(), trials))
 	}
 	// (b) recorded histories
 	for i := 0; i < n; i++ {
